@@ -63,6 +63,17 @@ theorem C39_descriptor_before_event (st : St) (hc : Clean st) (body : List BodyI
     ∃ ks, Doc.descriptor du (some st.nextUid) (some s) s ks ∈ pre := by
   refine ⟨by rw [runOne_docs]; rfl, runOne_referenced st hc body pre post u du k s h⟩
 
+/-- A stream never has a descriptor without an event: a descriptor is only re-emitted together with
+    the event that needed it, so every num_events entry is at least 1.  (A raw stream with a descriptor
+    but no events leaves no trace in the re-emitted run.) -/
+theorem C39_streams_nonempty (st : St) (hc : Clean st) (body : List BodyInp) (n : String)
+    (h : hasDescriptorNamed n (runOne st body).2) : 1 ≤ (evSeqsByName n (runOne st body).2).length := by
+  rw [runOne_byName st hc body n]
+  have := runOne_nonempty st body n ((runOne_hasNamed st body n).1 h)
+  cases hs : evSeqs n (runOne st body).2 with
+  | nil => exact absurd hs this
+  | cons a r => simp
+
 /-- The uids of the re-emitted documents are pairwise distinct (fresh, in emission order), so
     "the descriptor with uid u" is well defined. -/
 theorem C39_uids_distinct (st : St) (body : List BodyInp) : ((runOne st body).2.map Doc.uid).Nodup := by
